@@ -9,6 +9,7 @@ ops (fields are `name=value` tokens, any order):
   ctor name= [status=] pl=                    static constructors Ping/Pong/Text/Binary/Close + writeFrame
   rfc  op= fin= rsv= mask= key= pl= extra=    Rfc.encode ++ extra through the library reader
   parse hex=                                  raw bytes through the library reader
+  hf hex=                                     WebSocketTemporaryRingBuffer.hasFrame() on raw bytes
   hnew | stream <items> | feed <n> | feedrest | hsend pl= | hclose     handler ops
 payload spec: `h:<hex>` literal, `g:<len>:<seed>` LCG bytes, `a:<len>:<seed>` LCG printable ASCII
 -/
@@ -194,6 +195,11 @@ def stepLine (st : St) (line : String) : St × List String :=
       | _, _ => (st, ["bad-op"])
   | ["parse", h] => match (field [h] "hex").bind fromHex with
       | some b => (st, [showFrame "parse" (readFrame b)])
+      | none => (st, ["bad-op"])
+  | ["hf", h] => match (field [h] "hex").bind fromHex with
+      | some b => (st, [match hasFrameLit b with
+          | .ok v => "hf " ++ bit v
+          | .error e => "hf err:" ++ errName e])
       | none => (st, ["bad-op"])
   | ["hnew"] => ({ st with h := Handler.init }, [])
   | "stream" :: items =>
